@@ -58,6 +58,19 @@ def t8(ctx, rep, T):
                 if best is None or len(json.dumps(x)) > best[2]:
                     best = (kind, x.get('f'), len(json.dumps(x)))
         if best is None:
+            # the loop form: `for field in fields { for g in generics { if field.ty.contains_type(g) && !out.contains(g) { out.push(g) } } }`
+            vec = next((x for x in vt.walk(v) if x.get('k') == 'vecof' and x.get('items')), None)
+            if vec is not None:
+                for it in vec['items']:
+                    frames = it.get('guard', [])
+                    fors = [fr for fr in frames if fr.get('k') == 'for']
+                    tests = [fr for fr in frames if fr.get('k') == 'if' and any(y.get('k') == 'call' and y.get('f') == 'contains_type' for y in vt.walk(fr.get('c') or {}))]
+                    if fors and tests:
+                        txt = vt.show(fors[0].get('over'))
+                        kind = 'parameters' if 'generic' in txt else ('fields' if 'fields' in txt else txt[-20:])
+                        # "not yet in the list being built" is the loop spelling of `.unique()`
+                        dd = any(y.get('k') == 'op' and y.get('op') == '!' and any(z.get('k') == 'call' and z.get('f') == 'contains' for z in vt.walk(y)) for fr in frames if fr.get('k') == 'if' for y in vt.walk(fr.get('c') or {}))
+                        return kind, dd
             return None
         dedup = any(y.get('k') == 'call' and y.get('f') in ('unique', 'dedup', 'sorted') for y in vt.walk(v))
         return best[0], dedup
